@@ -79,6 +79,9 @@ type orcTx struct {
 	Msgs    []orcMsg
 	Forge   bool // signature made with a different key, validator's pubkey attached
 	WrongPK bool // signed with and carrying the signer-of-record's *wrong* pubkey (a stranger's)
+	// SigMut: per-position changes of the raw signature slots of the (otherwise properly signed) tx —
+	// forged / junk / empty / bit-flipped / exchanged signatures of single signers (dom_oracle_multi.go)
+	SigMut []orcSigMut
 }
 
 type orc struct {
@@ -439,6 +442,9 @@ func (o *orc) build(t orcTx) ([]byte, bool, bool, error) {
 	bz, err := txCfg.TxEncoder()(b.GetTx())
 	if err == nil && t.InfosSet && t.Infos < len(signers) {
 		bz, err = o.truncateSignerInfos(bz, signers, t.Infos)
+	}
+	if err == nil && len(t.SigMut) > 0 {
+		bz, sigOK, err = o.mutateSigs(bz, signers, t.SigMut)
 	}
 	return bz, !t.WrongPK, sigOK, err
 }
